@@ -1104,6 +1104,104 @@ def non_interference(check, runner):
                        {'first': a[1], 'second': b[1], 'responses': [repr(a[0]), repr(b[0])]})
 
 
+def scalar_detail(check, runner):
+    """oracle only (not modelled in Coq): detail leaves that are numbers or booleans - 0, 0.0 and False
+    included - arrive as their value (JSON family) or as its text form (XML family), at any depth and
+    inside lists; nothing is dropped or emptied"""
+    from spyne.model.fault import Fault
+    from lxml import etree
+    rng = check.rng
+    leaves = [0, 1, -5, 10 ** 20, 0.0, 1.5, False, True]
+    def mk(depth):
+        d = {}
+        for k in rng.sample(['a', 'b', 'key', 'K9', 'some', 'x1'], rng.randint(1, 3)):
+            r = rng.random()
+            if depth > 0 and r < 0.3:
+                d[k] = mk(depth - 1)
+            elif r < 0.45:
+                d[k] = [rng.choice(leaves), rng.choice(leaves)]
+            else:
+                d[k] = rng.choice(leaves)
+        return d
+    def flat_expected(d, xml):
+        out = []
+        for k in sorted(d):
+            v = d[k]
+            if isinstance(v, dict):
+                out.append((k, flat_expected(v, xml)))
+            elif isinstance(v, list):
+                out.append((k, [str(x) if xml else x for x in v]))
+            else:
+                out.append((k, str(v) if xml else v))
+        return out
+    def flat_xml(el):
+        groups = {}
+        order = []
+        for ch in el:
+            k = etree.QName(ch).localname
+            val = flat_xml(ch) if len(ch) else (ch.text or '')
+            if k not in groups:
+                order.append(k)
+            groups.setdefault(k, []).append(val)
+        return [(k, groups[k][0] if len(groups[k]) == 1 else groups[k]) for k in sorted(order)]
+    def flat_doc(d):
+        return [(k, flat_doc(d[k]) if isinstance(d[k], dict) else d[k]) for k in sorted(d)]
+    details = [{'a': 0}, {'a': False}, {'a': 0.0}, {'a': {'b': 0, 'key': False}}, {'a': [0, 1]}, {'a': 7, 'b': True}]
+    details += [mk(2) for _ in range(6 if check.tier == 'quick' else 60)]
+    for prot in ('PSoap11', 'PSoap12', 'PXml', 'PJson', 'PYaml', 'PMsgpack'):
+        xml = prot in XML_PROTS
+        for det in details:
+            w = runner.world(prot, 'http')
+            w.arm('body', lambda: Fault('Client.Scalar', 'scalar detail', detail=det), 'RETVAL')
+            res = w.wsgi('plain', rng.random() < 0.5)
+            check.count(('scalar-detail', prot, json.dumps(det, sort_keys=True)))
+            rp = {'protocol': prot, 'detail': det}
+            if res[0] == 'escape' and prot == 'PMsgpack' and type(res[1]).__name__ == 'OverflowError' \
+                    and '100000000000000000000' in json.dumps(det):
+                # msgpack has no integer beyond 64 bits: unrepresentable content, like NUL under XML
+                check.fail('C09|PMsgpack|msgpack-int-range|escape:OverflowError|detail-int-beyond-64-bit',
+                           'a Fault whose detail holds the integer 10**20 cannot be packed: OverflowError escapes '
+                           'handle_error before start_response', rp)
+                continue
+            if res[0] != 'ok':
+                check.fail('C09|%s|wsgi|scalar-detail|no-response' % prot,
+                           'a Fault whose detail holds number/boolean leaves %r was not reported: %r' % (det, res[:2]), rp)
+                continue
+            body = res[3]
+            try:
+                if xml:
+                    root = etree.fromstring(body)
+                    dets = [e for e in root.iter() if isinstance(e.tag, str) and etree.QName(e).localname.lower() == 'detail']
+                    got = flat_xml(dets[0]) if dets else None
+                else:
+                    doc = (json.loads(body.decode('utf8')) if prot == 'PJson' else
+                           __import__('yaml').safe_load(body) if prot == 'PYaml' else
+                           __import__('msgpack').unpackb(body, raw=False))
+                    def find(x):
+                        if isinstance(x, dict):
+                            if 'detail' in x:
+                                return x['detail']
+                            for v in x.values():
+                                r = find(v)
+                                if r is not None:
+                                    return r
+                        if isinstance(x, list):
+                            for v in x:
+                                r = find(v)
+                                if r is not None:
+                                    return r
+                        return None
+                    dd = find(doc)
+                    got = flat_doc(dd) if isinstance(dd, dict) else None
+            except Exception as e:
+                got = 'unreadable: %r' % e
+            want = flat_expected(det, xml)
+            if got != want:
+                check.fail('C09|%s|wsgi|scalar-detail|detail-changed' % prot,
+                           'raised detail %r, the wire carries %r (expected %r)' % (det, got, want), rp)
+    check.sample({'family': 'scalar detail leaves (oracle only)', 'details': details[:4]})
+
+
 def run(check):
     check.rule = ('per output protocol (8): fixed corpus of boundary faults + seeded generated faults (valid codes with '
                   'arbitrary dotted sub-codes, boundary codes around the Client test, open-vocabulary first segments, '
@@ -1154,6 +1252,7 @@ def run(check):
         if len(check.samples) < 10 and case['kind'] != 'none' and check.rng.random() < 0.02:
             check.sample({'protocol': case['prot'], 'site': case['site'], 'kind': case['kind'], 'spec': case['spec']})
     non_interference(check, runner)
+    scalar_detail(check, runner)
     lib.correspond(check, 'wsgi_response', IMPORTS, 'prot * bool * ucode * out (Z * wire)', 'wsgi_ok', runner.wsgi_cases,
                    show='(fun c : prot * bool * ucode * out (Z * wire) => '
                         'handle_rpc (fst (fst (fst c))) (snd (fst (fst c))) (snd (fst c)))')
